@@ -281,6 +281,14 @@ Definition h_thunk_data (tv : tval) : H block :=
   | _ => hfail BadThunkDecode
   end.
 
+(* a handle of static type Thunk used as such (None: the handle has another static type, the
+   operation does not apply) *)
+Definition h_as_thunk (tv : tval) : H (option block) :=
+  match fst tv with
+  | KThunk => b <- h_thunk_data tv ;; hret (Some b)
+  | _ => hret None
+  end.
+
 (* NickelValue::try_into_thunk / as_thunk / the Thunk arm of content(): checked conversion *)
 Definition h_retype_thunk (tv : tval) : H (tval * bool) :=
   o <- h_read tv ;;
@@ -434,6 +442,9 @@ Fixpoint take_roots (ss : list nat) : M (list tval) :=
     ret (match o with Some tv => tv :: l | None => l end)
   end.
 
+(* a pure look at the state *)
+Definition get {A} (f : hstate -> A) : M A := fun st => Ok (f st, st).
+
 Definition guard (c : hstate -> bool) (m : M out) : M out := fun st => if c st then m st else Ok (OSkip, st).
 
 Definition opt_list {A} (o : option A) : list A := match o with Some x => [x] | None => [] end.
@@ -581,7 +592,12 @@ Definition is_rev (sh : shape) : bool := match sh with SRev _ _ _ => true | _ =>
    thunk data, gives back what becomes new roots *)
 Definition with_thunk (s : nat) (f : tval -> block -> H (out * list tval)) : M out :=
   guard (root_is_thunk s)
-    (r <~ with_root s (fun tv => b <- h_thunk_data tv ;; r <- f tv b ;; hret (tv, r)) (OSkip, []) ;;
+    (r <~ with_root s (fun tv =>
+            ob <- h_as_thunk tv ;;
+            match ob with
+            | Some b => r <- f tv b ;; hret (tv, r)
+            | None => hret (tv, (OSkip, []))
+            end) (OSkip, []) ;;
      push_roots (snd r) ;;~ ret (fst r)).
 
 Definition step (o : op) : M out :=
@@ -662,19 +678,20 @@ Definition step (o : op) : M out :=
 
   | OMakeMut s m =>
     guard (mut_guard s m)
-      (fun st =>
-        (x <~ take_roots (opt_list (mut_slot m)) ;;
-         r <~ with_root s (fun tv => h_mutate WCow tv m (map (push_kind (root_tag s st)) x)) (false, x) ;;
-         push_roots (snd r) ;;~ ret ODone) st)
+      (t <~ get (root_tag s) ;;
+       x <~ take_roots (opt_list (mut_slot m)) ;;
+       r <~ with_root s (fun tv => h_mutate WCow tv m (map (push_kind t) x)) (false, x) ;;
+       push_roots (snd r) ;;~ ret ODone)
 
   | OContentMut s m =>
     guard (mut_guard s m)
-      (fun st =>
-        (if N.eqb (root_rc s st) 1 then
-           x <~ take_roots (opt_list (mut_slot m)) ;;
-           r <~ with_root s (fun tv => h_mutate WIfUnique tv m (map (push_kind (root_tag s st)) x)) (false, x) ;;
-           push_roots (snd r) ;;~ ret (OBool true)
-         else ret (OBool false)) st)
+      (t <~ get (root_tag s) ;;
+       n <~ get (root_rc s) ;;
+       if N.eqb n 1 then
+         x <~ take_roots (opt_list (mut_slot m)) ;;
+         r <~ with_root s (fun tv => h_mutate WIfUnique tv m (map (push_kind t) x)) (false, x) ;;
+         push_roots (snd r) ;;~ ret (OBool true)
+       else ret (OBool false))
 
   | OStrongClone s =>
     guard (root_live s)
@@ -691,7 +708,7 @@ Definition step (o : op) : M out :=
        | [tv] =>
          ob <~ lift (h_read tv) ;;
          match ob with
-         | None => ret ODone                                  (* inline: null / bool / empty container *)
+         | None => lift (h_drop [tv]) ;;~ ret ODone           (* inline: null / bool / empty container *)
          | Some b =>
            match b_tag b with
            | TThunk =>                                        (* thunk_lens: into_thunk_unchecked after the tag match *)
@@ -736,7 +753,8 @@ Definition step (o : op) : M out :=
        fl <~ take_roots [f] ;;
        match fl with
        | [ftv] =>
-         _ <~ lift (h_thunk_data ftv) ;;
+         ob <~ lift (h_as_thunk ftv) ;;
+         match ob with None => lift (h_drop (v ++ [ftv])) ;;~ ret OSkip | Some _ =>
          m <~ lift (h_alloc KRc TEnvMap (SData 0) []) ;;
          let newc := map as_value v ++ [m] in
          r <~ lift (h_modify WShared ftv (fun sh kids =>
@@ -747,6 +765,7 @@ Definition step (o : op) : M out :=
                       end)) ;;
          lift (h_drop (match snd r with Some rel => rel | None => newc end)) ;;~
          lift (h_drop [fst r]) ;;~ ret ODone
+         end
        | l => lift (h_drop (v ++ l)) ;;~ ret OSkip
        end)
 
@@ -777,7 +796,8 @@ Definition step (o : op) : M out :=
       ((* the harness builds rec_env: &[(Ident, Thunk)] from clones of the roots *)
        rs <~ clone_roots recs ;;
        r <~ with_root s (fun tv =>
-              b <- h_thunk_data tv ;;
+              ob <- h_as_thunk tv ;;
+              match ob with None => hret (tv, OSkip) | Some b =>
               match b_shape b with
               | SRev _ _ false =>
                 (* new_cached = Closure::clone(orig) *)
@@ -796,7 +816,7 @@ Definition step (o : op) : M out :=
                 hret (tv, ODone)
               | SRev _ _ true => hret (tv, OPanic)            (* assert!(cached.is_none()) *)
               | _ => hret (tv, ODone)
-              end) OSkip ;;
+              end end) OSkip ;;
        lift (h_drop rs) ;;~ ret r)
 
   | OTIntoClosure s =>
@@ -804,7 +824,8 @@ Definition step (o : op) : M out :=
       (l <~ take_roots [s] ;;
        match l with
        | [tv] =>
-         _ <~ lift (h_thunk_data tv) ;;
+         ob <~ lift (h_as_thunk tv) ;;
+         match ob with None => lift (h_drop [tv]) ;;~ ret OSkip | Some _ =>
          p <~ lift (h_take_or_clone tv closure_sel) ;;
          let sh := fst (fst p) in
          let kids := snd p in
@@ -821,6 +842,7 @@ Definition step (o : op) : M out :=
            | Some _ => push_roots (firstn 1 kids) ;;~ lift (h_drop (skipn 1 kids)) ;;~ ret ODone
            | None => lift (h_drop kids) ;;~ ret OPanic
            end
+         end
        | l' => lift (h_drop l') ;;~ ret OSkip
        end)
 
@@ -829,7 +851,8 @@ Definition step (o : op) : M out :=
       (l <~ take_roots [s] ;;
        match l with
        | [tv] =>
-         _ <~ lift (h_thunk_data tv) ;;
+         ob <~ lift (h_as_thunk tv) ;;
+         match ob with None => lift (h_drop [tv]) ;;~ ret OSkip | Some _ =>
          p <~ lift (h_take_or_clone tv all_kids) ;;
          let sh := fst (fst p) in
          if is_rev sh then
@@ -845,6 +868,7 @@ Definition step (o : op) : M out :=
          else
            tv' <~ lift (h_alloc KValue TThunk sh (snd p)) ;;
            push_root tv' ;;~ ret ODone
+         end
        | l' => lift (h_drop l') ;;~ ret OSkip
        end)
 
